@@ -277,7 +277,7 @@ class Gen:
         self.strlits = {}        # id -> (width, [elements with terminator])
         self.clits = []          # compound literals: (id, type, ini)
         self.budget = 0
-        self.top_unsized = False   # `T a[] = {{}, …}`: cproc rejects `{}` (C23) for the first element
+        self.top_unsized = False   # `T a[] = …` (historical: `{}` as first element used to be avoided)
 
     def hist(self, k, sub):
         d = self.stats.setdefault(k, {})
@@ -530,7 +530,9 @@ class Gen:
         items = []
         chpos = self.children(t, True)
         chall = self.children(t, False)
-        if rng.random() < 0.04 and not (isinstance(t, Arr) and t.n is None) and not noempty:
+        # `{}` (C23) also as the first element of an array: fixed finding empty-brace-first-element
+        # (`noempty` is kept in the signatures, it no longer restricts anything)
+        if rng.random() < 0.04 and not (isinstance(t, Arr) and t.n is None):
             self.hist("shape", "empty-braces")
             return L([])
         pos = 0
@@ -550,7 +552,6 @@ class Gen:
                     want_desig = True
                 else:
                     _, ct, w = chpos[pos]
-                    # `{}` (C23) as the first element of an array is not consumed by cproc: avoided
                     one, comp = self.gen_one(ct, w, depth + 1, last, nocl,
                                              noempty=isinstance(t, Arr) and pos == 0 and not items, nostr=after_nested)
                     items += one
@@ -946,6 +947,7 @@ class Runner:
         self.dir = os.path.join(ck.scratch(), "c07")
         os.makedirs(self.dir, exist_ok=True)
         self.stats = {}
+        self.classified = set()
         self.counts = {"objects": 0, "cproc_vs_model": 0, "cproc_vs_spec": 0, "gcc_vs_spec": 0, "auto": 0,
                        "auto_bytes": 0, "relocs": 0, "compound_literals": 0, "size_align": 0,
                        "known_union": 0, "known_reinit": 0, "known_auto": 0, "malformed": 0,
@@ -966,13 +968,25 @@ class Runner:
             for (name, ty, ini) in [(o.name, o.ty, o.ini)] + [(cid, ct, ci) for cid, ct, ci in o.clits]:
                 inc = 1 if isinstance(ty, Arr) and ty.n is None else 0
                 args = "%d %s %s" % (inc, drv_type(ty, tg), ini_m(ini))
-                lines += ["full " + args, "spec " + args, "parse " + args]
+                lines += ["full " + args, "spec " + args, "parse " + args, "class " + args]
         out = self.drv_lines(lines)
         res, k = {}, 0
         for o in objs:
             for name in [o.name] + [c[0] for c in o.clits]:
                 res[(o.name, name)] = (out[k], out[k + 1], out[k + 2])
-                k += 3
+                # which refinement theorem of Props/C07.lean (parseinit_refines_ref…) covers this
+                # (type, initialiser) pair: the decidable class predicates of Spec/InitClass.lean
+                cls = out[k + 3]
+                if cls == "bad-op":
+                    raise Broken("drv_c07 cannot classify: %s" % lines[k + 3][:300])
+                if (id(o), name) not in self.classified:
+                    self.classified.add((id(o), name))
+                    key = "refines_ref_proved:" + cls if not cls.startswith("none") else "refines_ref_differential_only:" + cls[5:]
+                    self.counts[key] = self.counts.get(key, 0) + 1
+                    self.counts["refines_ref_classified"] = self.counts.get("refines_ref_classified", 0) + 1
+                    if not cls.startswith("none"):
+                        self.counts["refines_ref_proved"] = self.counts.get("refines_ref_proved", 0) + 1
+                k += 4
         return res
 
     def check_batch(self, objs, targ, use_gcc):
@@ -1501,11 +1515,21 @@ def run(ck):
     ck.cov["histogram"] = {k: dict(sorted(v.items(), key=lambda kv: -kv[1])[:40]) for k, v in R.stats.items()}
     ck.cov["malformed_diagnostics"] = mal
     ck.cov["corpus_witnesses"] = ncorpus
+    ncls, nprv = R.counts.get("refines_ref_classified", 0), R.counts.get("refines_ref_proved", 0)
+    ck.cov["refines_ref_coverage"] = {
+        "classified": ncls, "covered_by_parseinit_refines_ref": nprv,
+        "fraction": round(nprv / ncls, 4) if ncls else None,
+        "by_class": {k.split(":", 1)[1]: v for k, v in sorted(R.counts.items()) if k.startswith("refines_ref_proved:")},
+        "differential_only_by_first_failing_hypothesis":
+            {k.split(":", 1)[1]: v for k, v in sorted(R.counts.items()) if k.startswith("refines_ref_differential_only:")}}
+    ck.notes.append("parseinit_refines_ref (cursor machine = C11 6.7.9 reference, proved) covers %d of %d generated "
+                    "(type, initialiser) pairs incl. compound literals (%.1f%%); the others (designators, arrays of "
+                    "unknown size) are compared differentially only" % (nprv, ncls, 100.0 * nprv / max(ncls, 1)))
     if R.counts.get("hyp_fail_without_union_switch"):
         ck.notes.append("%d objects outside the hypotheses of emitdata_image_ev although no union member was switched"
                         % R.counts["hyp_fail_without_union_switch"])
     ck.notes.append("excluded from generation (recorded under C19): `int x = {1, 2};` (scalar-excess-assert), initialised "
-                    "flexible array member (flexible-init-assert); `{}` (C23) as first array element; a string literal "
+                    "flexible array member (flexible-init-assert); a string literal "
                     "directly behind a nested designator (gcc and clang disagree with each other)")
     if not ck.proofs_ok and not ck.violations:
         ck.violation({"kind": "proof-broken", "theorem": "CprocVerif.Props.C07 (lake build failed)",
@@ -1530,15 +1554,21 @@ META = {
              "(emitdata_image / emitdata_image_ev), the definition has the object's size, unwritten bits are zero, "
              "strings are truncated/zero-extended, relocations keep symbol and addend, the list stays sorted without "
              "partial overlap, later covering initialisers remove earlier ones, the cursor stack never leaves obj[32], "
-             "every produced initialiser lies inside the object.  Tied to /repo on every run by compiling generated "
+             "every produced initialiser lies inside the object; and parseinit_refines_ref: for every well-formed type "
+             "and every initialiser without designators (fully braced or brace-elided at any depth, partial, strings, "
+             "struct values, empty braces; objects of known size) the image of the cursor machine's log equals the image "
+             "of the writes of the independent recursive C11 6.7.9 reference Spec/InitRef (simulation proof by induction "
+             "on the reference's recursion; counterexample theorem for designated union-member switches).  Tied to /repo on every run by compiling generated "
              "(type, initialiser) objects with the freshly built cproc-qbe for all targets and comparing every data "
              "definition with the model pipeline and with the recursive C11 6.7.9 reference (itself validated against "
              "gcc), by executing automatic objects, and by malformed inputs under ASan."),
     "design_ref": "DESIGN.md section 4, C07",
     "note": ("Trusted: Lean kernel + propext/Classical.choice/Quot.sound; the hand-written model (tied by the "
              "differential run); the Python layout/generator/decoders; gcc as oracle for Spec/InitRef; ilpy for "
-             "automatic objects.  The correspondence between the cursor machine and Spec/InitRef for brace-elided and "
-             "multi-level designated initialisers is differential only (see Props/C07.lean for what is proved).  "
+             "automatic objects.  The correspondence between the cursor machine and Spec/InitRef is PROVED for "
+             "initialisers without designators on objects of known size (parseinit_refines_ref, incl. brace elision); for "
+             "designated initialisers and arrays of unknown size it is differential only — evidence field "
+             "refines_ref_coverage gives the fraction of the generated objects inside the proved class (drv_c07 `class`).  "
              "Known findings: union-member-switch (several union members initialised: not laminar, emitdata's own "
              "XXX), auto-zero-after-patch (funcinit)."),
     "technique": "Lean 4 proof (invariants over list/accumulator/stack) + differential correspondence on emitted data, gcc-validated spec, executed IL",
